@@ -13,6 +13,7 @@ pub fn gens() -> Vec<Gen> {
     vec![
         Gen { name: "c13.planted", prop: "C13", tags: &["reserved", "check_for_sd_claim", "inv_arr", "clean", "src/lib.rs", "src/issuer.rs"], cases: cases_planted, check },
         Gen { name: "c13.lookalike", prop: "C13", tags: &["lookalike", "prefix", "starts_with", "name", "clean_is_ok", "ok_only_if_clean"], cases: cases_lookalike, check: check_exact },
+        Gen { name: "c13.resubmit", prop: "C13", tags: &["sequence", "resubmit", "again", "cache", "instance", "reset"], cases: cases_resubmit, check: check_sequence },
         Gen { name: "c13.deep_planted", prop: "C13", tags: &["depth", "deep", "recursion", "bound"], cases: cases_deep, check },
         Gen { name: "c13.planted_enum", prop: "C13", tags: &["enum"], cases: cases_enum, check },
     ]
@@ -272,4 +273,74 @@ fn check_exact(case: &J) -> Verdict {
         (Out::Ok(_), true) => fail(format!("issued an SD-JWT for claims {} with a reserved member", short(&jstr(&cfg.claims), 400)), "issuance fails with an error"),
         (Out::Panic(m), _) => fail(format!("PANIC: {m}"), "Ok or Err"),
     }
+}
+
+/// Sequences of submissions on ONE issuer instance: a claim set with a reserved name submitted
+/// twice in a row (same / other format, strategy, holder key) and with other submissions in
+/// between. Every submission with a reserved member is refused, every clean one issued.
+fn cases_resubmit(_rng: &mut Rng, sink: &mut dyn FnMut(J) -> bool) {
+    let dirty = vec![
+        json!({"iss": "i", "exp": FAR_EXP, "a": 1, "_sd": ["x"]}),
+        json!({"iss": "i", "exp": FAR_EXP, "a": {"b": {"...": "y"}}}),
+        json!({"iss": "i", "exp": FAR_EXP, "arr": [1, {"k": 2, "_sd": "z"}]}),
+        json!({"iss": "i", "exp": FAR_EXP, "m": [[{"...": null}]]}),
+        json!({"iss": {"id": "i", "_sd": []}, "exp": FAR_EXP, "v": 1}),
+    ];
+    let clean = vec![
+        json!({"iss": "i", "exp": FAR_EXP, "a": 1, "_sdk": ["x"]}),
+        json!({"iss": "i", "exp": FAR_EXP, "a": {"b": {"....": "y"}}, "arr": [1, {"k": 2}]}),
+    ];
+    let step = |claims: &J, v: usize| -> J {
+        let strategy = [json!("AllLevels"), json!("TopLevel"), json!("NoSD"), json!({"Custom": ["$.a"]})][v % 4].clone();
+        let holder = [J::Null, json!("es256"), json!("eddsa")][v % 3].clone();
+        json!({"claims": claims, "strategy": strategy, "format": if v % 2 == 0 { "compact" } else { "json" }, "holder": holder, "decoys": v % 5 == 0})
+    };
+    let mut n = 0usize;
+    let algs = ["ES256", "EdDSA", "HS256"];
+    let mut emit = |steps: Vec<J>, sink: &mut dyn FnMut(J) -> bool| -> bool {
+        n += 1;
+        sink(json!({"alg": algs[n % 3], "steps": steps}))
+    };
+    for (i, d) in dirty.iter().enumerate() {
+        for v in 0..6 {
+            // identical resubmission, and resubmission with other arguments
+            if !emit(vec![step(d, v), step(d, v)], sink) {
+                return;
+            }
+            if !emit(vec![step(d, v), step(d, v + 1), step(d, v + 2)], sink) {
+                return;
+            }
+            for c in &clean {
+                if !emit(vec![step(d, v), step(c, v + 1), step(d, v)], sink) {
+                    return;
+                }
+                if !emit(vec![step(c, v), step(d, v + 1), step(d, v + 1), step(c, v)], sink) {
+                    return;
+                }
+            }
+            let other = &dirty[(i + 1) % dirty.len()];
+            if !emit(vec![step(d, v), step(other, v), step(d, v), step(other, v + 3)], sink) {
+                return;
+            }
+        }
+    }
+}
+
+fn check_sequence(case: &J) -> Verdict {
+    let alg = case["alg"].as_str().unwrap_or("ES256");
+    let Some(steps) = case["steps"].as_array() else { return Verdict::Trivial };
+    let mut issuer = crate::sut::new_issuer(alg);
+    for (k, step) in steps.iter().enumerate() {
+        let Some(strategy) = Strategy::from_json(&step["strategy"]) else { return Verdict::Trivial };
+        let reserved = has_reserved_member(&step["claims"]);
+        let o = crate::sut::issue_on(&mut issuer, &step["claims"], &strategy, step["holder"].as_str(), step["decoys"].as_bool().unwrap_or(false), step["format"].as_str().unwrap_or("compact"));
+        let what = format!("submission #{} on one issuer instance (claims {}, strategy {}, {})", k + 1, short(&jstr(&step["claims"]), 200), jstr(&step["strategy"]), step["format"].as_str().unwrap_or(""));
+        match (o, reserved) {
+            (Out::Err(_), true) | (Out::Ok(_), false) => {}
+            (Out::Ok(s), true) => return fail(format!("{what}: ISSUED a credential although the claims have a reserved member ({})", short(&s, 60)), "refused, on every submission"),
+            (Out::Err(e), false) => return fail(format!("{what}: refused ({e}) although no member is named `_sd` or `...`"), "issued"),
+            (Out::Panic(m), _) => return fail(format!("{what}: PANIC: {m}"), "Ok or Err"),
+        }
+    }
+    Verdict::Pass
 }
